@@ -71,6 +71,7 @@ fn pump(lp: &mut EventLoop<'static, Ctx>, done: &AtomicU32, n: u32, stop_early: 
 
 pub fn c03(p: &Params) {
     begin_execution();
+    set_stall(p.extra);
     let mut lp = new_loop();
     let (ping, source) = make_ping().unwrap();
     let ping_tok = lp
@@ -241,6 +242,7 @@ impl Tx {
 
 pub fn c04(p: &Params) {
     begin_execution();
+    set_stall(p.extra);
     let mut lp = new_loop();
     let (tx, chan) = match p.bound {
         None => {
@@ -477,6 +479,7 @@ impl Drop for WFut {
 
 pub fn c10(p: &Params) {
     begin_execution();
+    set_stall(p.extra);
     let mut lp = new_loop();
     let (exec, sched) = executor::<u64>().unwrap();
     let tok = lp
@@ -690,6 +693,7 @@ pub fn c10(p: &Params) {
 
 pub fn c11(p: &Params) {
     begin_execution();
+    set_stall(p.extra);
     let mut lp = new_loop();
     let signal = lp.get_signal();
     let mut rng = Rng::new(p.extra as u64 ^ 0xC11);
@@ -940,6 +944,7 @@ impl futures_core::Stream for TStream {
 
 pub fn c10_stream(p: &Params) {
     begin_execution();
+    set_stall(p.extra);
     let mut lp = new_loop();
     let shared = Arc::new(Mutex::new(SS::default()));
     let src = calloop::stream::StreamSource::new(TStream(shared.clone())).unwrap();
